@@ -33,6 +33,11 @@ def flegendre(x, m):
         dt = x.dtype
     except AttributeError:
         dt = np.float64
+    if not np.issubdtype(dt, np.floating):
+        #
+        # Integer abscissae: the polynomials are not integer-valued.
+        #
+        dt = np.float64
     leg = np.ones((m, n), dtype=dt)
     if m >= 2:
         leg[1, :] = x
